@@ -62,6 +62,10 @@ pub fn report(out: &mut Out) {
             }
         }
     }
+    // private fns of ShardHandle: reachable only through the fns above (all accounted for) — listed, never a violation
+    for n in HANDLE_PRIVATE_FNS {
+        table.insert(format!("ShardHandle::{} (private)", n), coverage(n).unwrap_or("private helper: reachable only through the accounted fns of this module").to_string());
+    }
     out.extra.insert("api_coverage(derived from sharded_actor.rs by build.rs)".into(), json!(table));
     // ---- can the routing change at run time (rebalancing, hot-shard migration)?  Source-derived:
     // `num_shards: usize` and `shards: Arc<Vec<ShardHandle>>` are plain immutable fields, no method
